@@ -383,6 +383,13 @@ Definition run_fold_check (a : list Z) : list Z :=
   | _ => [-1]
   end.
 
+(* CMD prelu_kind = 16 : zp sn sd codes... -> [0 RELU | 1 LEAKY_RELU | 2 MAXIMUM | 3 RELU + MINIMUM] *)
+Definition run_prelu_kind (a : list Z) : list Z :=
+  match a with
+  | zp :: sn :: sd :: codes => [prelu_kind codes zp sn sd]
+  | _ => [-1]
+  end.
+
 Definition run (cmd : Z) (a : list Z) : list Z :=
   if cmd =? 1 then run_driver_payload a
   else if cmd =? 2 then run_driver_parse a
@@ -399,4 +406,5 @@ Definition run (cmd : Z) (a : list Z) : list Z :=
   else if cmd =? 13 then run_diag_plane a
   else if cmd =? 14 then run_group_slices a
   else if cmd =? 15 then run_fold_check a
+  else if cmd =? 16 then run_prelu_kind a
   else [-1].
